@@ -7,6 +7,7 @@ names="${*:-$(ls seeded)}"
 mkdir -p /tmp/scratch/par
 for n in $names; do echo $n; done | xargs -P $J -I{} sh -c '
   n={}; p=$(echo "$n" | cut -c1-3); w=/tmp/scratch/par/$n
+  if grep -q \"retired\" /verif/seeded/$n/meta.json 2>/dev/null; then echo "$n: retired (no longer manifests on the repaired tree)"; exit 0; fi
   rm -rf $w $w-out; git -C /repo worktree add -q --detach $w HEAD 2>/dev/null || { echo "$n: worktree failed"; exit 0; }
   if ! git -C $w apply /verif/seeded/$n/patch.diff 2>/dev/null; then echo "$n: PATCH DOES NOT APPLY"; git -C /repo worktree remove --force $w; exit 0; fi
   out=$(NIMA_REPO=$w VERIF_BUILD_DIR=$w-out/build VERIF_REPLAY_DIR=$w-out VERIF_EVIDENCE_DIR=$w-out/evidence timeout 1800 /verif/check $p --tier quick 2>&1)
